@@ -325,8 +325,8 @@ func printResult(res *ExploreResult) {
 		Assumptions []string
 	}
 	vs := res.Violations
-	if len(vs) > 5 {
-		vs = vs[:5]
+	if n := 5 + 1000*len(os.Getenv("VERIF_ALLVIOL")); len(vs) > n {
+		vs = vs[:n]
 	}
 	o := outT{res.Harness, res.Paths, res.Ends, res.Details, res.Witnesses, res.Checks, res.Obligations, res.Discharged, res.ObligUnknown, vs,
 		res.Solver.Queries, res.Solver.TotalTime.String(), res.Solver.MaxTime.String(), res.Wall.String(), len(res.Functions), res.Intercepts, res.Assumptions}
